@@ -144,6 +144,17 @@ def main():
                 half[futs[fu]] = {"status": r5["status"], "errors": (r5.get("summary") or {}).get("errors"), "wall_s": round(r5.get("wall", 0), 1)}
         thorough["verus_rerun_rlimit_5"] = half
         thorough["unstable_units"] = [u for u, h in half.items() if h["status"] != "ok"]
+        # reachability of every early exit (vacuity at path level): `assert(false)` in front of each `return` of the canary copies must fail;
+        # the ones that verify are exits the contracts make unreachable (defensive code), listed, not counted as failures
+        pc = {}
+        with cf.ThreadPoolExecutor(max_workers=max(1, min(8, len(units)))) as ex:
+            futs = {ex.submit(engine.path_canary, u): u for u in units}
+            for fu in cf.as_completed(futs):
+                try:
+                    pc[futs[fu]] = fu.result()
+                except Exception as e:
+                    pc[futs[fu]] = {"error": repr(e)}
+        thorough["path_canary"] = pc
         try:
             sys.path.insert(0, os.path.join(ROOT, "bin"))
             import run_mutants as rm
